@@ -17,6 +17,8 @@ import Driver.Util
         annots : "_" | ';'-separated <ruleid>:<loc>:<againstloc>:<hexmessage>
                  loc : "-" | <fileindex>/<sourcepath>/<startLine>/<startCol>/<endLine>/<endCol>  (0-based)
         -> ok <fa>;<fa>;...  with fa = <hexpath|~>:<sl>:<sc>:<el>:<ec>:<type>:<hexmessage>  |  err <class>
+        (lint: annotations located in a file whose import bit is 1 are dropped before anything
+         else - `runCheckH` / `handlerView`: lint handlers never see import files)
 
     ycheck <ver> <l|b> <hexModuleDir> <wsSection> <modSection> <exclude-imports 0|1>
            <files> <againstFiles> <annots>
@@ -173,7 +175,7 @@ def handle : List String → String
           opts.toList.mapM (fun ch => parseBool ch.toString), parseFiles files, parseFiles afiles, parseAnnots annots with
     | some v, some lint, some validated, some c, some [aci, iup, exi], some fs, some afs, some as =>
       let img : Image := { files := fs, againstFiles := afs, annots := as }
-      (match runCheck (rulesOf v) lint validated c aci iup exi img with
+      (match runCheckH (rulesOf v) lint validated c aci iup exi img with
        | .ok fas => "ok " ++ ";".intercalate (fas.map showFA)
        | .error e => "err " ++ e.tag)
     | _, _, _, _, _, _, _, _ => "bad-op"
@@ -188,7 +190,7 @@ def handle : List String → String
          let topS := match top with
            | none => "none"
            | some t => showEff t
-         let rep := match runEff (rulesOf v) lint eff exi img with
+         let rep := match runEffH (rulesOf v) lint eff exi img with
            | .ok fas => "ok " ++ ";".intercalate (fas.map showFA)
            | .error e => "err " ++ e.tag
          "cfg " ++ showEff eff ++ " top " ++ topS ++ " rep " ++ rep)
